@@ -69,6 +69,8 @@ def circuit_case(ctx, out, comps, w):
     canon = dict(level='circuit', kinds=sorted({c['kind'] for c in comps}))
     try:
         circ = gen_circ.to_impl(comps)
+        if not (gen_circ.wellposed_at(ctx.driver, circ, w) and gen_circ.wellposed_at(ctx.driver, circ, 0.0)):
+            out.count('circuit_illposed'); return
         dc = sol.DCSolution(circ)
         rms = sol.ComplexSolution(circ, w=w, peak_values=False)
         peak = sol.ComplexSolution(circ, w=w, peak_values=True)
